@@ -300,6 +300,12 @@ def backlog_stage(ctx, thorough):
             raise vlib.Infra("backlog driver failed: " + log[-1500:])
         r = json.load(open(out))
         if not r["queue_full"]:
+            if (r.get("udpcount") or 0) >= 1000:
+                # the workers are held and a thousand datagrams were counted as received: they are in the queue - or they have vanished
+                ctx.violation("%s: with the workers held, %s datagrams were counted as received but the workers' queue never filled (%s): datagrams "
+                              "that were received never reached the workers" % (proto, r.get("udpcount"), r.get("note")), {"proto": proto, "result": r},
+                              key=proto + ":backlog-vanished")
+                continue
             raise vlib.Infra("backlog driver could not fill the queue: %s" % r)
         case = {"proto": proto, "sent": r["sent"], "result": r}
         ctx.extra.setdefault("backlog_runs", []).append({k: r.get(k) for k in ("proto", "sent", "udp_after", "dec_after", "published", "max_same_payload", "drained")})
